@@ -539,11 +539,13 @@ class ObjWorld(Run):
             return op
         if which == "embed":
             big = self.by_kind("map", N=n)
-            small = [m for m in self.by_kind("map") if self._N(self.slots[m]) < n]
+            small = [m for m in self.by_kind("map") if 0 < self._N(self.slots[m]) <= n]
             if not big or not small:
                 return None
             op["recv"] = rng.choice(big)
             op["arg"] = self._biased_pick(rng, small)
+            if op["arg"] == op["recv"]:
+                return None
             op["qubits"] = sorted(rng.sample(range(n), self._N(self.slots[op["arg"]])))
             return op
         if which in ("gate_apply", "layer_apply", "circuit_apply"):
